@@ -1213,6 +1213,32 @@ def model_exact_message(rng):
     return c
 
 
+def gen_straddle(rng, start, variant):
+    """a message in which a fresh multi-label owner name begins at offset `start` (around 0x3FFF), so that some of its
+    suffixes start at or before 16383 and others after, followed by owners and NS/MX targets sharing each suffix"""
+    q = {"name": hexl([b"big", b"example", b""]), "rdclass": 1, "rdtype": 16, "covers": 0, "deleting": None, "ttl": 0, "rdatas": []}
+    # header 12 + question 13 + 4 = 29; filler RR = pointer 2 + 10 + L
+    fill = {"name": q["name"], "rdclass": 1, "rdtype": 65280, "covers": 0, "deleting": None, "ttl": 60,
+            "rdatas": [{"k": "o", "b": (b"\x5a" * (start - 41)).hex()}]}
+    lens = [[3, 5, 2, 4], [1, 1, 1, 1, 1, 1], [7, 1, 6], [2, 9, 3]][variant % 4]
+    S = [bytes([97 + i]) * n for i, n in enumerate(lens)] + [b"tst", b""]
+    if variant >= 4:
+        S[1] = S[1].upper()
+    def rr(name, rdtype, rds, ttl=300):
+        return {"name": hexl(name), "rdclass": 1, "rdtype": rdtype, "covers": 0, "deleting": None, "ttl": ttl, "rdatas": rds}
+    an = [fill, rr(S, 2, [{"k": "n", "n": hexl([b"ns"] + S[1:])}])]
+    au, ad = [], []
+    for k in range(1, len(S) - 1):
+        suf = S[k:]
+        if variant >= 4 and rng.chance(1, 2):
+            suf = [bytes(l).swapcase() for l in suf]
+        au.append(rr([b"o%d" % k] + suf, 15, [{"k": "m", "p": k, "n": hexl([b"mx%d" % k] + S[k:])}]))
+        ad.append(rr([b"mx%d" % k] + S[k:], 1, [{"k": "o", "b": rng.bytes(4).hex()}]))
+    ad.append(rr(S, 1, [{"k": "o", "b": rng.bytes(4).hex()}]))
+    return {"kind": "msg", "id": rng.below(65536), "flags": 0x8400, "origin": None, "request_payload": 0, "pad": 0,
+            "sections": [[q], an, au, ad], "opt": None, "tsig": None, "max_size": 65535}
+
+
 def run_one(ctx, c):
     ctx.case((c["kind"], json.dumps(c, sort_keys=True)), sample=c if len(json.dumps(c)) < 1500 else None)
     eval_case(ctx, c)
@@ -1240,6 +1266,12 @@ def generate(ctx: Ctx, scale: int, rng):
             continue
         if wellformed(c):
             run_one(ctx, c)
+    # names straddling the 0x3FFF pointer limit at every alignment (quick: every alignment once, thorough: every variant)
+    for start in range(16370, 16392):
+        for variant in ([start % 8] if scale == 1 else range(8)):
+            c = gen_straddle(rng, start, variant)
+            run_one(ctx, c)
+            ctx.count("straddle-3fff")
     for i in range(n(260)):
         try:
             c = gen_update(rng)
